@@ -74,6 +74,28 @@ def main():
                 except Exception as e:  # noqa
                     o["kw"] = "raised " + type(e).__name__
                 o["is_attr"] = (getattr(cls, x.name, None) is x) if isinstance(x.name, str) else False
+                # other argument forms of the same integer: a bool (an int subclass) and a value of ANOTHER protocol enum
+                alt = []
+                if n in (0, 1):
+                    alt.append(("bool", bool(n)))
+                for en2, c2 in classes.items():
+                    if c2 is not cls:
+                        try:
+                            alt.append((en2, c2(n)))
+                        except Exception:
+                            pass
+                        break
+                o["alt"] = "ok"
+                for how, arg in alt:
+                    try:
+                        z = cls(arg)
+                        same = (z is x) or (type(z) is type(x) and type(z) is cls and int(z) == int(x) and z.name == x.name and any(z is m for m in cls) == any(x is m for m in cls))
+                        if not same:
+                            o["alt"] = f"{cls.__name__}(<{how} {arg!r}>) gave {z!r} of type {type(z).__name__} (name {getattr(z, 'name', None)!r}), {cls.__name__}({n}) gave {x!r} (name {x.name!r})"
+                            break
+                    except Exception as e:  # noqa
+                        o["alt"] = f"{cls.__name__}(<{how} {arg!r}>) raised {type(e).__name__}"
+                        break
                 try:
                     o["contains"] = (n in cls)
                 except TypeError:
